@@ -46,18 +46,32 @@ def run(chk):
     for name, (mi, fn) in register_functions(repo).items():
         import ast
         from ..core import U
-        inner = [n for n in ast.walk(fn) if isinstance(n, ast.FunctionDef) and n is not fn]
+        from ..core import subst, positional_params
+        ops_param = fn.args.args[0].arg
+        # the function applied to the handler: a closure returned by the decorator factory, or partial(<helper>, table, ops)
+        applied = []  # (body function, env of its parameters, name of the handler parameter)
+        for w in [n for n in ast.walk(fn) if isinstance(n, ast.FunctionDef) and n is not fn]:
+            applied.append((w, {}, w.args.args[0].arg))
+        for r in [n for n in ast.walk(fn) if isinstance(n, ast.Return) and isinstance(n.value, ast.Call)]:
+            c = r.value
+            if U(c.func) in ("partial", "functools.partial") and c.args and isinstance(c.args[0], ast.Name) and not c.keywords:
+                res = repo.resolve(mi, c.args[0].id)
+                if res is not None and isinstance(res[1], ast.FunctionDef):
+                    hp = positional_params(res[1])
+                    bound = c.args[1:]
+                    if len(hp) == len(bound) + 1:
+                        applied.append((res[1], dict(zip(hp, bound)), hp[-1]))
         ok = False
-        for w in inner:
+        for w, env, impl in applied:
             for n in ast.walk(w):
                 if isinstance(n, ast.For) and isinstance(n.target, ast.Name):
                     for st in n.body:
                         if isinstance(st, ast.Assign) and isinstance(st.targets[0], ast.Subscript):
                             key, val = U(st.targets[0].slice), U(st.value)
-                            it = n.iter
+                            it = subst(n.iter, env)
                             if isinstance(it, ast.Call) and isinstance(it.func, ast.Name) and it.func.id in ("tuple", "list", "set", "sorted") and len(it.args) == 1:
                                 it = it.args[0]
-                            if key == n.target.id and val == f"partial({w.args.args[0].arg}, {n.target.id})" and U(it) == fn.args.args[0].arg:
+                            if key == n.target.id and val == f"partial({impl}, {n.target.id})" and U(it) == ops_param:
                                 ok = True
         chk.require("C05.R1", f"{mi.rel}:{fn.lineno}", ok, f"{name} stores partial(handler, op) under each listed op", name, "registration decorator", "every registered op: handler receives the wrong op or is stored under another key")
     chk.ok("C05.R1", "registries", f"{len(hs['qbytes'])} QBytes handlers / {n_ops} ops, {len(hs['qbits'])} QBits handlers, {len(hs['qfunc'])} function wrappers extracted")
